@@ -3,7 +3,7 @@ HOOK_COMMITS = ['621a573']
 ENGINES = [
     dict(name='verus-extract', path='/verif/vlib', serves_properties=['C04', 'C05', 'C06', 'C08', 'C12', 'C14', 'C15', 'C17', 'C20'],
          kind_free_text='Verus 0.2026.09.13 on functions extracted mechanically from /repo on every run, contracts injected from /verif/units/<unit>/unit.rs'),
-    dict(name='kani-contracts', path='/verif/kani', serves_properties=['C01', 'C02', 'C03', 'C06', 'C11', 'C15', 'C17', 'C19', 'C20'],
+    dict(name='kani-contracts', path='/verif/kani', serves_properties=['C01', 'C02', 'C03', 'C06', 'C10', 'C11', 'C15', 'C17', 'C19', 'C20'],
          kind_free_text='Kani 0.68 function contracts (proof_for_contract) and loop-free full-domain harnesses on the real crates of /repo (path dependencies), CBMC 6.11'),
 ]
 NOTES = ('Contract-based deductive verification. exit 0 = all obligations discharged; exit 1 = VIOLATION; '
@@ -13,6 +13,12 @@ NOT_APPLICABLE = {
     'C13': 'bus state is BTreeMap+VecDeque behind Rc<RefCell> driven by std iterator closures: no Verus model, Kani measured >10 min for 2 outputs x 2 ops (DESIGN.md §7)',
 }
 CHECKS = {
+    'C10': dict(
+        engine='kani-contracts', category='model_checking',
+        technique='Kani per-N harnesses on the real macro-generated conversions (pointer identity, bounds, CBMC memory-leak check) and bounded harnesses for the in-place operations',
+        text='For each N the shared and mutable views are checked for a symbolic sub-slice (length L <= 3N+2) of symbolic contents: Some iff N | L, L/N frames in the very same memory, channel c of frame i is sample i*N+c, a write through the frame view lands in exactly that sample, and to_sample_slice/from_frame_slice is the exact inverse; boxed conversions reuse the allocation and leak nothing on success or failure (CBMC --memory-leak-check); in-place map/zip_map/write/equilibrium/add equal the element-wise frame operation for lengths 0..=4 and a length mismatch panics before any element is touched. Exhaustive in N (thorough tier), bounded in L: labelled model checking, not proof.',
+        note='Bounded in slice length (the conversion code is loop-free and L enters only via %, /, *). Quick tier covers 11 (format, N) pairs; thorough all N = 1..=32 x {i16,u8,f32,I24}. In-place loops: lengths <= 4 only.',
+    ),
     'C11': dict(
         engine='kani-contracts', category='proof',
         technique='Kani bit-precise full-domain harnesses on the no_std build of dasp_sample (exact mantissa/exponent comparison); Verus unit rms where built',
